@@ -41,6 +41,7 @@ func chainSrc(steps []chainStep) string {
 }
 
 func suiteC19(cfg Config, res *Result) {
+	defer c19Names(res)
 	defer filterTagRecursion(res, "chain", "c19-filter-tag-recursion")
 	defer c19SafeInputs(res)
 	defer c19Registry(res)
